@@ -62,6 +62,35 @@ func init() {
 	reg(harnessPkg+".vpUint64", "", nd("uint64", 64, tUint64))
 	reg(harnessPkg+".vpRune", "", nd("rune", 32, tInt32))
 	reg(harnessPkg+".vpFloat64", "", nd("float64", wFloat, tFloat64))
+	reg(harnessPkg+".vpBits", "", func(fr *frame, args []value) value {
+		n := int(fr.conc(args[1]))
+		if n <= 0 || n > 64 {
+			panic(engineBug{"vpBits: width out of range"})
+		}
+		v := fr.i.ps.fresh(goString(args[0]), "bits", n)
+		return mkValue(mkExtend(false, 64-n, v), tUint64)
+	})
+	reg(harnessPkg+".vpUF", "", func(fr *frame, args []value) value {
+		ps := fr.i.ps
+		name := "uf_" + sanitize(goString(args[0]))
+		xs, _ := args[1].([]value)
+		ts := make([]*Term, len(xs))
+		for i, x := range xs {
+			ts[i] = mkResize(toTerm(x), 64, true)
+		}
+		key := fmt.Sprintf("%s/%d", name, len(ts))
+		if ps.ufDecl == nil {
+			ps.ufDecl = map[string]bool{}
+		}
+		if !ps.ufDecl[key] {
+			ps.ufDecl[key] = true
+			sig := strings.Repeat("(_ BitVec 64) ", len(ts))
+			ps.sol.Send("(declare-fun " + name + " (" + sig + ") (_ BitVec 64))")
+		}
+		t := mkRaw("uf", 64, ts...)
+		t.name = name
+		return sym{t}
+	})
 	reg(harnessPkg+".vpParam", "", func(fr *frame, args []value) value {
 		n := goString(args[0])
 		v, ok := fr.i.wk.cfg.Params[n]
@@ -409,6 +438,23 @@ func init() {
 		}
 		return math.Signbit(args[0].(float64))
 	})
+	reg("math.Copysign", "fp.abs / fp.neg (concrete sign operand)", func(fr *frame, args []value) value {
+		if isSym(args[1]) {
+			unsupported("math.Copysign with a symbolic sign operand")
+		}
+		neg := math.Signbit(args[1].(float64))
+		if s, ok := args[0].(sym); ok {
+			a := mkRaw("fp.abs", wFloat, s.t)
+			if neg {
+				return sym{mkRaw("fp.neg", wFloat, a)}
+			}
+			return sym{a}
+		}
+		if neg {
+			return math.Copysign(args[0].(float64), -1)
+		}
+		return math.Copysign(args[0].(float64), 1)
+	})
 	reg("math.Abs", "fp.abs", func(fr *frame, args []value) value {
 		if s, ok := args[0].(sym); ok {
 			return sym{mkRaw("fp.abs", wFloat, s.t)}
@@ -652,6 +698,7 @@ func init() {
 	reg("internal/abi.NoEscape", "", func(fr *frame, args []value) value { return args[0] })
 	reg("internal/abi.Escape", "", func(fr *frame, args []value) value { return args[0] })
 	reg("strings.Clone", "", func(fr *frame, args []value) value { return args[0] })
+	reg("internal/stringslite.Clone", "", func(fr *frame, args []value) value { return args[0] })
 	reg("unique.Make", "", nil)
 	delete(externals, "unique.Make")
 
@@ -791,6 +838,19 @@ func init() {
 	})
 	reg("time.initLocal", "time.Local = UTC", func(fr *frame, args []value) value {
 		return nil
+	})
+	reg("time.loadLocation", "zone database model: Asia/Shanghai = fixed +08:00, Etc/GMT+5 style names unsupported, every other name is unknown", func(fr *frame, args []value) value {
+		name, ok := args[0].(string)
+		if !ok {
+			unsupported("LoadLocation with a symbolic zone name")
+		}
+		tp := fr.i.prog.ImportedPackage("time")
+		if name == "Asia/Shanghai" {
+			loc := call(fr.i, fr, token.NoPos, tp.Func("FixedZone"), []value{name, 8 * 3600})
+			return tuple{loc, iface{}}
+		}
+		var nilLoc *value
+		return tuple{nilLoc, fr.newError("unknown time zone " + name)}
 	})
 	// ---- errors / runtime bits that cannot be interpreted ----
 	reg("runtime.Callers", "", func(fr *frame, args []value) value { return 0 })
